@@ -49,6 +49,10 @@ Units ==
     note |-> ToString(<<"addr", f, n>>)] : f \in AddrFams, n \in 0..MaxLen}
   \cup {[b |-> Honest(7777, 0, V0, PayloadFor("u32", n)), r |-> Rec(7777, 0, V0, PayloadFor("u32", n), <<>>),
     note |-> ToString(<<"unknown", n>>)] : n \in 0..MaxLen}
+  \* the code of a vendor-specific GROUPED definition sent without the V flag: another, undefined AVP,
+  \* whose payload is opaque (it must not be read as members)
+  \cup {[b |-> Honest(VVCode("grouped"), 0, V0, PayloadFor("u32", n)), r |-> Rec(VVCode("grouped"), 0, V0, PayloadFor("u32", n), <<>>),
+    note |-> ToString(<<"vendorless-grouped-code", n>>)] : n \in 0..MaxLen}
 
 Wrap(code, flags, vendor, innerB, innerR) ==
   [b |-> Honest(code, flags, vendor, innerB), r |-> Rec(code, flags, vendor, innerB, innerR)]
